@@ -254,3 +254,22 @@ for _pid, _extra in {
  'C03': 'A writer may store through a local name bound to the widened array in the same statement; a write through a name bound before the array was replaced is reported (stale alias).',
 }.items():
     ADDENDA[_pid] = (ADDENDA.get(_pid, '') + ' ' + _extra).strip()
+
+
+# --- round 11: index resolution and dispatch decided by interpretation ------------------------------------------------------------------------
+for _pid, _extra in {
+ 'C01': _RS + 'Tables (round 11): _get_indices (every spelling of an index - scalar, list, mask, slice, tuple with Ellipsis, {name / position: index}, (index, axis=), None - to one positional index per '
+        'dimension; labels looked up on the axis of the named dimension with the tolerance handed on; masks and full slices never looked up; positions kept under indexing=position; keepdims), '
+        '_getitem dispatch (orthogonal workers unless broadcast is asked for by argument, then by the array flag, then by the option; N-d boolean mask to compress; scalar result as it is; metadata carried), '
+        '_getaxes_ortho (scalar-indexed axes dropped, the others in order). The structural readings of _getitem (R5) and _getaxes_ortho (R6) run on trial: these tables decide when the code is written otherwise.',
+ 'C02': _RS + 'Tables (round 11): _locate_slice_strict on concrete labels (every start / stop / step combination: inclusive stop in the direction of the step, open bounds stay None, a negative step down to the '
+        'first element ends with None, absent labels refused) - decides R4 when the structural reading does not recognise the code; _get_indices, _getitem, _getaxes_ortho (shared with C01).',
+ 'C03': _RS + 'Tables (round 11): _setitem dispatch (which worker receives which resolved index and cast flag; N-d boolean mask to _setvalues_bool; with inplace=False every write goes to a copy that is '
+        'returned and the receiver gets none) - decides R1 / R2 when the structural reading does not recognise the code; a forwarding instance (RF) whose direct call is gone is discharged by this table; _get_indices (shared with C01).',
+ 'C13': 'Round 11: _maybe_delete_axes by scenario table (exactly the candidate axes that no variable uses are removed, each decided on its own) when the structural reading (R4) does not recognise the search; '
+        'rename_axes / rename_keys (R6) on trial with their tables; loops over range(len(xs)) read like enumerate(xs).',
+ 'C14': 'Round 11: _apply_dimarray_axis (R2) on trial with its table; workers bound with functools.partial before being handed to reduce_axis read like the options passed to reduce_axis; closures see the environment they were defined in.',
+ 'C15': 'Round 11: parameter types of private module-level helpers are inferred from their call sites; super(Class, obj).method(...) acts on obj.',
+ 'C11': 'Round 11: unflatten (R2 / R3) on trial with its table.',
+}.items():
+    ADDENDA[_pid] = (ADDENDA.get(_pid, '') + ' ' + _extra).strip()
